@@ -111,14 +111,16 @@ example :
     request.** Every request the command socket can carry (`cv` arbitrary:
     mutating, rejected by the main state, query, status, metrics, list,
     HardStop, SoftStop, LoadState of any file, `request_type: None`,
-    LaunchWorker, ReturnListenSockets), accepted by a running main process, has
+    LaunchWorker, ReturnListenSockets, ReloadConfiguration of a loadable file,
+    SetMetricDetail, …; every `cv` but the one that makes the handler panic,
+    `crashesMain`), accepted by a running main process, has
     exactly one final answer after the first run-loop pass later than the
     worker timeout — whatever the workers do — unless one of the two open
     findings applies at that pass: the main process was shut down by a stop
     verb (`ShutDown`, F37), or the request is gathered without a deadline and a
     worker has not answered (`Hangs`, F36). -/
 theorem C09_one_final_answer_all_verbs (ret : Bool) (T n : Nat)
-    (pre mid post : List Op) (c : Nat) (cv : ClientVerb)
+    (pre mid post : List Op) (c : Nat) (cv : ClientVerb) (hcrash : cv.crashesMain = false)
     (halive : ¬ ShutDown (run (Hub.init true true ret T n) pre))
     (halive' : ¬ ShutDown (run (Hub.init true true ret T n) (pre ++ [.request c (cv.classify true)] ++ mid)))
     (hnohang : ¬ Hangs (run (Hub.init true true ret T n) pre).nextReq
@@ -128,7 +130,7 @@ theorem C09_one_final_answer_all_verbs (ret : Bool) (T n : Nat)
     finalsOf (run (Hub.init true true ret T n) pre).nextReq
       (run (Hub.init true true ret T n)
         (pre ++ [.request c (cv.classify true)] ++ mid ++ [.tick] ++ post)).log = 1 :=
-  one_final_core true true ret T n (Or.inr rfl) pre mid post c _ (classify_answers cv) halive halive'
+  one_final_core true true ret T n (Or.inr rfl) pre mid post c _ (classify_answers cv hcrash) halive halive'
     (releasable_all_verbs true true ret T n pre mid c _ halive hlate hnohang)
 
 /-- a LoadState of two requests with one worker that answers both (one Ok, one
@@ -149,7 +151,7 @@ example :
     or answered at once** — no side condition but "the main process runs". -/
 theorem C09_one_final_answer (ret : Bool) (T n : Nat)
     (pre mid post : List Op) (c : Nat) (cv : ClientVerb)
-    (h1 : cv ≠ .softStop) (h2 : ∀ k, cv ≠ .load k)
+    (h1 : cv ≠ .softStop) (h2 : ∀ k, cv ≠ .load k) (h3 : ∀ k, cv ≠ .reload k) (h4 : cv.crashesMain = false)
     (halive : (run (Hub.init true true ret T n) pre).run ≠ .exited)
     (halive' : (run (Hub.init true true ret T n) (pre ++ [.request c (cv.classify true)] ++ mid)).run ≠ .exited)
     (hlate : (run (Hub.init true true ret T n) pre).now + T
@@ -158,7 +160,7 @@ theorem C09_one_final_answer (ret : Bool) (T n : Nat)
       (run (Hub.init true true ret T n)
         (pre ++ [.request c (cv.classify true)] ++ mid ++ [.tick] ++ post)).log = 1 :=
   one_final_deadline_core true true ret T n (Or.inr rfl) pre mid post c _
-    (classify_answered cv h1 h2) halive halive' hlate
+    (classify_answered cv h1 h2 h3 h4) halive halive' hlate
 
 example :
     finalsOf 0 (run (Hub.init true true true 10 2)
@@ -194,6 +196,26 @@ theorem C09_one_final_answer_counterexample_shutdown :
     (run (Hub.init true true true 10 1)
       [.request 0 .worker, .request 1 .hardStop, .response 0 ⟨0, 1, 0⟩ .ok, .tick]).run = .exited := by
   decide
+
+/-- **C09 (a client that is not allowed gets exactly one failure).** With
+    `command_allowed_uids` set and the client's uid not listed, every request
+    but the empty one is classified as refused at once (`classifyFor false`), so
+    `C09_one_final_answer` applies: one final answer, a failure, nothing is
+    scattered. (The empty request is answered by its own check first.) -/
+theorem C09_unauthorized_client_refused (answers : Bool) (cv : ClientVerb) (h : cv ≠ .none) :
+    (cv.classifyFor false answers).immediate = some .failure ∧ (cv.classifyFor false answers).gathers = false := by
+  cases cv <;> simp_all [ClientVerb.classifyFor, Verb.immediate, Verb.gathers]
+
+example : (ClientVerb.hardStop.classifyFor false true) = .workerBad ∧
+    finalsOf 0 (run (Hub.init true true true 10 2) [.request 0 (ClientVerb.hardStop.classifyFor false true), .tick]).log = 1 ∧
+    (run (Hub.init true true true 10 2) [.request 0 (ClientVerb.hardStop.classifyFor false true), .tick]).run = .running := by
+  decide
+
+/-- open (new): `ClientSession::ready` hands only the LAST request of a read batch to
+    the dispatcher: of two requests written back to back on one connection the
+    first is dropped without any answer (`pipelined-request-dropped`). -/
+theorem C09_one_final_answer_counterexample_pipelined (v1 v2 : Verb) :
+    sessionPick [v1, v2] = some v2 := rfl
 
 -- ============================================================ termination ==
 
@@ -257,7 +279,7 @@ theorem C09_ok_iff_all_acked_partial (fwd excl ret : Bool) (T n : Nat) (ops : Li
     (hnd : ret = true ∨ NoDuplicateAnswers ops)
     (e : Emit) (he : e ∈ (run (Hub.init fwd excl ret T n) ops).log)
     (t : Task) (to : Bool) (hsrc : e.src = some (t, to)) (hk : e.kind = .ok)
-    (hverb : t.verb = .worker ∨ ∃ k, t.verb = .loadState k) (hpath : fwd = true ∨ to = false) :
+    (hverb : t.verb.judgesWorkers = true) (hpath : fwd = true ∨ to = false) :
     AllAcked t ∧ ∀ g ∈ t.got, g.2.2 ≠ .failure :=
   ok_all_acked_core fwd excl ret T n ops hnd e he t to hsrc hk hverb hpath
 
@@ -286,7 +308,7 @@ theorem C09_ok_iff_all_acked_all_verbs (excl : Bool) (T n : Nat) (ops : List Op)
 theorem C09_ok_iff_all_acked (excl : Bool) (T n : Nat) (ops : List Op)
     (e : Emit) (he : e ∈ (run (Hub.init true excl true T n) ops).log)
     (t : Task) (to : Bool) (hsrc : e.src = some (t, to)) (hk : e.kind = .ok)
-    (hverb : t.verb = .worker ∨ ∃ k, t.verb = .loadState k) :
+    (hverb : t.verb.judgesWorkers = true) :
     AllAcked t ∧ ∀ g ∈ t.got, g.2.2 ≠ .failure :=
   ok_all_acked_core true excl true T n ops (Or.inl rfl) e he t to hsrc hk hverb (Or.inl rfl)
 
@@ -348,7 +370,7 @@ theorem C09_ok_iff_all_acked_counterexample_duplicate :
 theorem C09_failure_reported_means_failure (fwd excl ret : Bool) (T n : Nat) (ops : List Op)
     (e : Emit) (he : e ∈ (run (Hub.init fwd excl ret T n) ops).log)
     (t : Task) (to : Bool) (hsrc : e.src = some (t, to)) (hk : e.kind = .ok)
-    (hverb : t.verb = .worker ∨ ∃ k, t.verb = .loadState k) :
+    (hverb : t.verb.judgesWorkers = true) :
     ∀ g ∈ t.got, g.2.2 ≠ .failure :=
   no_failure_core fwd excl ret T n ops e he t to hsrc hk hverb
 
